@@ -24,6 +24,7 @@ RULE = (
     "longer ones around 2^31, 2^63, 2^64 and 10^30. "
     "Non-trivial case: at least one must-reject cell and one must-accept non-empty cell; distinct by hash of "
     "(format, declaration, cells)."
+    "RegEx rules may span lines (line feed, tab, '#' as ordinary characters); Integer cells include float spellings of integers ('17.0', '17.', '17e0')."
 )
 ASSUMPTIONS = [
     "cells the statement leaves open are neutral: '+5', leading zeros, '1_0', surrounding blanks, non-ASCII digits, "
